@@ -166,6 +166,18 @@ class AtomExtractor:
                 return env.path_of(a.args[0])
         return None
 
+    def _lfold(self, e, fn, cls, depth=0):
+        """try_fold, following a local name that has one definition (e.g. a parameter binding of an inlined helper)."""
+        if not (isinstance(e, ast.Name) and defs_of(self.A, fn, e.id)):
+            ok, v = try_fold(self.P, e, fn, cls)
+            if ok:
+                return ok, v
+        if isinstance(e, ast.Name) and depth < 4 and e.id not in fn.params:
+            ds = defs_of(self.A, fn, e.id)
+            if len(ds) == 1 and isinstance(ds[0], ast.Assign):
+                return self._lfold(ds[0].value, fn, cls, depth + 1)
+        return False, None
+
     # -- fact -> atoms --------------------------------------------------------
     def atoms_of_fact(self, f, env):
         """[Atom] or None when the fact is outside the idiom table."""
@@ -175,7 +187,7 @@ class AtomExtractor:
             l, r, op = f.left, f.right, f.op
             # K in X / K not in X
             if op in ("in", "not in"):
-                ok, k = try_fold(P, l, fn, env.cls)
+                ok, k = self._lfold(l, fn, env.cls)
                 px = env.path_of(r)
                 if ok and isinstance(k, str) and px is not None:
                     return [Atom("present" if op == "in" else "absent", px + (k,))]
@@ -184,7 +196,7 @@ class AtomExtractor:
                     return [Atom("present" if op == "in" else "absent", px + ("$" + l.id,))]
                 # param in [literals]
                 if isinstance(l, ast.Name) and l.id in fn.params:
-                    okr, vals = try_fold(P, r, fn, env.cls)
+                    okr, vals = self._lfold(r, fn, env.cls)
                     if okr and isinstance(vals, (list, tuple)):
                         return [Atom("param", (l.id,), (op, tuple(vals)))]
                 return None
@@ -203,7 +215,7 @@ class AtomExtractor:
             if isinstance(l, ast.Call) and call_name(l) == "len" and l.args:
                 hp = self._len_of_hex(l, env)
                 if hp is not None:
-                    okc, c = try_fold(P, r, fn, env.cls)
+                    okc, c = self._lfold(r, fn, env.cls)
                     if okc and isinstance(c, int):
                         if op == ">" and c == 0:
                             return [Atom("hex", hp), Atom("hexnonempty", hp)]
@@ -222,14 +234,14 @@ class AtomExtractor:
                     if q is not None and op == "!=":
                         return [Atom("lenne", p, (".".join(q),))]
                     return None
-                okc, c = try_fold(P, r, fn, env.cls)
+                okc, c = self._lfold(r, fn, env.cls)
                 if okc and isinstance(c, int):
                     return [Atom("len", p, (op, c))]
                 return None
             # E op const
             p = env.path_of(l)
             if p is not None:
-                okc, c = try_fold(P, r, fn, env.cls)
+                okc, c = self._lfold(r, fn, env.cls)
                 if okc and isinstance(c, (int, str)) and not isinstance(c, bool):
                     if op in ("==", "!="):
                         return [Atom("eq" if op == "==" else "ne", p, (c,))]
@@ -304,7 +316,7 @@ class AtomExtractor:
         for comp in path[1:]:
             if comp.startswith("$"):
                 b = binding.get(comp[1:])
-                ok, k = try_fold(P, b, env.fn, env.fn.cls) if b is not None else (False, None)
+                ok, k = self._lfold(b, env.fn, env.fn.cls) if b is not None else (False, None)
                 if not ok or not isinstance(k, str):
                     return None
                 rest.append(k)
@@ -322,7 +334,7 @@ class AtomExtractor:
                 if isinstance(b, ast.Name) and b.id in env.fn.params:
                     args.append("$" + b.id)
                     continue
-                ok, k = try_fold(P, b, env.fn, env.fn.cls)
+                ok, k = self._lfold(b, env.fn, env.fn.cls)
                 if not ok:
                     return None
                 args.append(unwrap(k))
@@ -348,14 +360,24 @@ class AtomExtractor:
         env = PathEnv(A, fn, roots, pc)
         g = A.cfg(fn, pc)
         out = []
+        exits = []
         for r in [n for n in A.own_nodes(fn) if isinstance(n, ast.Return)]:
             for rn in g.nodes_of(r):
                 if not g.is_reachable(rn):
                     continue
+                virt = self._virtual_returns(fn, pc, r, rn)
+                exits += virt if virt is not None else [(r, rn, r.value, None)]
+        for r, rn, rvalue, extra_node in exits:
+            if True:
                 atoms = set()
                 undec = []
                 feasible = True
                 facts = self.F.local(fn, pc, rn)
+                if extra_node is not None:
+                    # the `return` statement of an inlined helper: its own path conditions hold as well
+                    seen_t = {f.text() for f in facts}
+                    facts = facts + [f for f in self.F.local(fn, pc, extra_node) if f.text() not in seen_t]
+                    rn = extra_node
                 for f in facts:
                     a = self.atoms_of_fact(f, env)
                     if a is None:
@@ -392,7 +414,7 @@ class AtomExtractor:
                         p = env.path_of(call.args[0])
                         if p is not None:
                             atoms.add(Atom("bip32", p))
-                vals = self._return_values(r.value, fn, pc, partition, env, atoms, depth)
+                vals = self._return_values(rvalue, fn, pc, partition, env, atoms, depth)
                 subs = self.ok_facts_of_completed(fn, pc, rn, env)
                 import itertools
                 for code, extra in vals:
@@ -405,6 +427,21 @@ class AtomExtractor:
                     else:
                         out.append((code, frozenset(atoms | extra), r, undec))
         return out
+
+    def _virtual_returns(self, fn, pc, r, rn):
+        """`return X` where X only holds what the returns of an inlined helper stored: one exit per stored value,
+        evaluated at the place where it was stored.  None when the return is an ordinary one."""
+        if not isinstance(r.value, ast.Name):
+            return None
+        from .prov import Prov
+        if getattr(self, "_pv", None) is None:
+            self._pv = Prov(self.A)
+        rds = self._pv.reaching(fn, pc, r.value.id, rn)
+        if len(rds) < 2 or any(d.kind != "assign" or d.value is None for d in rds):
+            return None
+        if not r.value.id.startswith("_ret_"):
+            return None
+        return [(r, rn, d.value, d.cnode) for d in rds]
 
     def _partition_eval(self, f, partition, fn, pc):
         """Evaluate a fact over partition parameters -> True/False/None."""
